@@ -477,15 +477,20 @@ def rule_zone_length(chk):
     particles widened by half a spacing on each side, projected on the normal - a quantity that does not depend on where the particles currently are relative to the interface"""
     t = M.py(IOM)
     mgr = M.find_class(t, 'InletOutletManager')
-    fn = M.find_func(mgr, '_update_inlet_outlet_info')
+    fn = M.inline_helpers(mgr, M.find_func(mgr, '_update_inlet_outlet_info'), keep=set(n_ for n_ in M.methods(mgr) if not n_.startswith('_')))      # private helpers and local closures (`_extent(coords, dx)`) written in place
     st = [a for a in ast.walk(fn) if isinstance(a, ast.Assign) and compact(a.targets[0]) == 'info.length']
     ok = len(st) == 1
     if ok:
-        blk = M.enclosing(st[0], (ast.If, ast.For))
-        defs = local_defs(fn.body)
-        got = inline(st[0].value, defs)
+        from verif_static import paths as PT
         want = 'abs((max(pa.x)-min(pa.x)+info.dx)*info.normal[0] + (max(pa.y)-min(pa.y)+info.dx)*info.normal[1] + (max(pa.z)-min(pa.z)+info.dx)*info.normal[2])'
-        ok = canon(got) == canon(want)
+        # per path, with the locals standing for what they hold at that point (a temporary re-used for x, y and z in turn is three different things)
+        gots = []
+        for p_ in PT.enumerate_paths(M.docstring_stripped(fn.body)):
+            for e in p_:
+                if e.kind == 'stmt' and e.node is st[0] or (e.kind == 'stmt' and isinstance(e.node, ast.Assign) and compact(e.node.targets[0]) == 'info.length'):
+                    gots.append(PT.resolve(e.node.value, e.env))
+        ok = bool(gots) and all(canon(g_) == canon(want) for g_ in gots)
+        got = gots[0] if gots else st[0].value
     chk.decide(ok, 'zone-codes', 'zone-length-is-the-extent-along-the-normal', node=st[0] if st else fn, file=IOM, func='InletOutletManager._update_inlet_outlet_info',
                detail_bad='info.length is not |sum_k (max(x_k) - min(x_k) + dx) n_k|: a length measured from the interface (or from anything the particles move relative to) changes with their '
                           'current offset, so originals are recycled the wrong distance and outlet particles deleted at the wrong place after a restart', detail_ok='|extent . normal| with extent = bounding box + dx')
@@ -758,6 +763,17 @@ def main(chk):
     c06 = importlib.util.module_from_spec(spec6)
     spec6.loader.exec_module(c06)
     c06.rule_append_offsets(chk, M.find_class(M.cy(PA), 'ParticleArray'))
+    # a particle that crossed the outlet plane leaves the fluid whatever its index (rule shared with C06)
+    c06.rule_removal_exits(chk, M.find_class(M.cy(PA), 'ParticleArray'))
+    # `if not dest_array:` in extract_particles and `if ghost_pa:` in the updaters ask whether an array was *given*: that is what they mean only while a ParticleArray is always
+    # true, i.e. while the class defines neither __len__ nor __bool__ (with __len__ an empty fluid / outlet array counts as "not given": the particles extracted for it go
+    # into a throw-away clone)
+    pcls = M.find_class(M.cy(PA), 'ParticleArray')
+    special = [m_ for m_ in ('__len__', '__bool__', '__nonzero__') if m_ in M.methods(pcls)]
+    chk.decide(not special, 'inlet-move', 'an-array-given-is-true-even-when-empty', node=M.methods(pcls)[special[0]] if special else pcls, file=PA, func='ParticleArray',
+               detail_bad='ParticleArray defines %s: an empty particle array is now false, so `if not dest_array:` (extract_particles) and `if ghost_pa:` (the inlet / outlet updates) '
+                          'treat an empty destination as none given - particles entering an empty fluid or outlet array are copied into a temporary clone and lost' % special,
+               detail_ok='no __len__ / __bool__: an array object is true whether or not it holds particles')
     chk.assume('exactly-once over arbitrary runs and velocity fields (particles crossing and returning within a step) is not decided')
     chk.assume('ParticleArray.extract_particles / remove_particles copy and delete whole particles (C06)')
 
